@@ -20,6 +20,10 @@ CHECKS = {
          "Part 1 explores ALL reachable abstract builder states (len, open-label length) - a complete fixpoint, not a depth bound - executing every operation of the menu on the real NameBuilder in every state (twice, with different fill octets) against an abstract RFC-limit model and an independent wire validator. Part 2 enumerates every presentation string over 11 symbols to length 6/7, boundary-length families, every wire string from a label-length menu, raw octet strings, every index pair for slice/range/split/truncate, and chain() over a length menu, against an independent validator and text/wire round trips.",
          "Builder control flow depends only on (len, open-label length) (checked per transition); strings with unescaped space/quote/'['/non-ASCII are only required to yield valid names.",
          "seqx", "DESIGN.md §3 C03"),
+ "C13": ("exploration", "exhaustive enumeration of all zones over a small name universe x NSEC/NSEC3 configurations through the real SortedRecords + generate_nsecs/generate_nsec3s, independent chain builder and coverage predicate as oracle",
+         "All zones over an 11-name universe (cuts, glue, occluded data, nested cut, shared and two-level ENTs, wildcard, case twins, multi-window bitmaps, equal-RDATA unknown types, out-of-zone records): 82,944 zones quick / 746,496 thorough, x NSEC (DNSKEY assumed on/off) and 14/30 NSEC3 configs (salt x iterations x opt-out modes). Oracle written from RFC 4034/4035/5155 in the harness: own canonical order, cut/glue/occlusion predicates, ENT derivation, iterated SHA-1 + base32hex, bitmap codec; exact owner set, order, next pointers, bitmaps; and for every absent (name,type) over a 64-name closure x 12 types a matching-without-bit or covering record (incl. wrap-around, closest-encloser/next-closer for NSEC3, opt-out flag).",
+         "ring SHA-1 as primitive; TTL values and NSEC3PARAM contents are not asserted (not in the property); an ENT derived only from opted-out delegations may be present or absent (RFC 5155 7.1).",
+         "gramx", "DESIGN.md §3 C13"),
  "C16": ("model_checking", "complete product enumeration through the real middleware stack + deviation-bounded exhaustive exploration (envx) of the real Dgram/Stream servers over mock sockets under a paused clock",
          "(a) full product of transport x EDNS size x configured limit x response size boundaries x OPT/question/layout variants through MandatoryMiddlewareSvc<EdnsMiddlewareSvc<CookiesMiddlewareSvc<svc>>>; (b) all environment-answer/service-completion sequences with <=3 (quick) / <=4 (thorough) deviations for 3 pipelined requests incl. malformed ones on the real DgramServer and StreamServer; (c) pipeline depth 1..16/64. Oracle: independent deframer/parser: framing, ID/question echo, exactly-once, size bound, TC iff dropped, liveness of other connections, no panic in any task.",
          "tokio current-thread FIFO scheduling with biased select! in the server code; mocks replace sockets; missing responses are excused on a connection the client or environment itself broke.",
